@@ -704,8 +704,32 @@ func (c04) Run(t TestingT, scn json.RawMessage, tape *Tape) *Outcome {
 	}
 	// every hard failure has an error addressing the failed field, unless the
 	// field lies inside a subtree nulled by another failure
+	// When a failure unwinds through a deferred position to the root (the
+	// recorded finding F-C04-3 - here with the same end result as the model,
+	// data = null), forcing stops there: deferred values not yet forced never
+	// run, so no error can be demanded for them.
+	forcingAborted := false
+	if dec.Data == nil {
+		var thunks []string
+		for _, fa := range firedAt {
+			kind, path, _ := strings.Cut(fa, "@")
+			if kind == FThunk || deferredFK[kind] || kind == FElemThunk {
+				thunks = append(thunks, path)
+			}
+		}
+		for _, f := range fails {
+			for _, tp := range thunks {
+				if isUnder(f.path, tp) && isUnder(tp, f.target) && tp != f.target {
+					forcingAborted = true
+				}
+			}
+		}
+	}
 	for i, f := range fails {
 		if !f.needErr {
+			continue
+		}
+		if forcingAborted && (f.deferred || c04UnderDeferred(f.path, firedAt)) {
 			continue
 		}
 		shadowed := false
@@ -740,4 +764,16 @@ func (c04) Run(t TestingT, scn json.RawMessage, tape *Tape) *Outcome {
 	}
 	_ = sort.Strings
 	return o
+}
+
+// c04UnderDeferred reports whether path lies at or below a position whose value
+// was deferred in this run.
+func c04UnderDeferred(path string, firedAt []string) bool {
+	for _, fa := range firedAt {
+		kind, tp, _ := strings.Cut(fa, "@")
+		if (kind == FThunk || deferredFK[kind] || kind == FElemThunk) && isUnder(path, tp) {
+			return true
+		}
+	}
+	return false
 }
